@@ -367,6 +367,9 @@ def do_check(prop, tier, count=None, jobs=None, seed=None, minimise_budget=45.0,
             merge_stats(stats, {"hash_" + k: v for k, v in r["stats"].items() if k.startswith("fired_") or k == "ops"})
             for k, v in r["sigs"].items():
                 sigs["H|" + k] = sigs.get("H|" + k, 0) + v
+            for v in r["violations"]:       # e.g. the code under test raised while a scenario was set up
+                v["evalprop"] = "C10H"
+                viols.append(v)
             herr.extend(r["harness_errors"])
         if herr:
             say(json.dumps(herr[0])[:3000])
@@ -516,8 +519,10 @@ def _report(prop, cls, v, seed, hash_lanes, budget, pool, tier="quick"):
         hs = [int(doc.get("hashseed", 0))] if str(doc.get("hashseed", "")).isdigit() else [0]
         servers = [Server(hs[0])]
 
+        evalprop = v.get("evalprop", prop)
+
         def classes(d):
-            r = servers[0].eval(prop, d)
+            r = servers[0].eval(evalprop, d)
             if not r.get("ok"):
                 return []
             return [x["cls"] for x in r["violations"]]
@@ -529,7 +534,7 @@ def _report(prop, cls, v, seed, hash_lanes, budget, pool, tier="quick"):
     finally:
         for s in servers:
             s.close()
-    rep = {"property": prop, "sub": sub, "class": cls, "detail": v["detail"], "seed": seed, "index": v.get("index"),
+    rep = {"property": prop, "sub": sub if sub == "C10H" else v.get("evalprop", prop), "class": cls, "detail": v["detail"], "seed": seed, "index": v.get("index"),
            "hashseeds": hs, "scenario": mini, "original_scenario": doc if mini is not doc else None,
            "minimiser_evaluations": evals, "reproduced_before_minimising": reproduced}
     name = "%s-%s-%s.json" % (prop, seed, hashlib.sha256(json.dumps(mini, sort_keys=True).encode()).hexdigest()[:10])
@@ -562,7 +567,7 @@ def do_replay(path):
             else:
                 harness_error("replay failed inside the harness: %r" % (rs,))
         else:
-            r = servers[0].eval(prop, doc)
+            r = servers[0].eval(sub, doc)
             if not r.get("ok"):
                 harness_error("replay failed inside the harness: %s" % r.get("error"))
             got = [x["cls"] for x in r["violations"]]
